@@ -93,7 +93,7 @@ func (in *Interp) newObject(st *State, v Value, label string) *Object {
 }
 
 func (in *Interp) oblige(kind, label string, f *Term, pos string) {
-	if f == tFalse {
+	if f == tFalse && kind != "assert" {
 		return
 	}
 	in.obligs = append(in.obligs, &Obligation{Kind: kind, Label: label, Formula: f, Pos: pos})
